@@ -698,14 +698,25 @@ type PropertyExpressionVisitor struct {
 	BaseVisitor
 
 	PropertyLookup *cypher.PropertyLookup
+	hasSymbol      bool
 }
 
 func (s *PropertyExpressionVisitor) EnterOC_Atom(ctx *parser.OC_AtomContext) {
-	s.ctx.Enter(&AtomVisitor{})
+	// count(*) is an atom made of bare tokens, see NonArithmeticOperatorExpressionVisitor
+	if !HasTokens(ctx, parser.CypherLexerCOUNT) {
+		s.ctx.Enter(&AtomVisitor{})
+	}
 }
 
 func (s *PropertyExpressionVisitor) ExitOC_Atom(ctx *parser.OC_AtomContext) {
-	s.PropertyLookup.Atom = s.ctx.Exit().(*AtomVisitor).Atom
+	if HasTokens(ctx, parser.CypherLexerCOUNT) {
+		s.PropertyLookup.Atom = &cypher.FunctionInvocation{
+			Name:      "count",
+			Arguments: []cypher.Expression{cypher.GreedyRangeQuantifier},
+		}
+	} else {
+		s.PropertyLookup.Atom = s.ctx.Exit().(*AtomVisitor).Atom
+	}
 }
 
 func (s *PropertyExpressionVisitor) EnterOC_PropertyKeyName(ctx *parser.OC_PropertyKeyNameContext) {
@@ -713,5 +724,13 @@ func (s *PropertyExpressionVisitor) EnterOC_PropertyKeyName(ctx *parser.OC_Prope
 }
 
 func (s *PropertyExpressionVisitor) ExitOC_PropertyKeyName(ctx *parser.OC_PropertyKeyNameContext) {
+	// A chained lookup, e.g. n.a.b, nests the preceding lookup as the atom of the next one
+	if s.hasSymbol {
+		s.PropertyLookup = &cypher.PropertyLookup{
+			Atom: s.PropertyLookup,
+		}
+	}
+
 	s.PropertyLookup.SetSymbol(extractPropertyKeyName(s.ctx, ctx))
+	s.hasSymbol = true
 }
